@@ -134,10 +134,11 @@ def real_content(rng, allow_binary=True):
     base = rng.choice([0x00, 0x10, 0x20])
     scale = rng.randint(0, 3)
     el = rng.randint(0, 3)
-    e = rng.choice([rng.randrange(-20, 20), rng.randrange(-20, 20), 0, 1, -1, 127, -128, 128, -129, 255, 256])
+    e = rng.choice([rng.randrange(-20, 20), rng.randrange(-20, 20), 0, 1, -1, 127, -128, 128, -129, 255, 256, 1023, -1074, 32767, -32768, 2**29, -(2**29), 2**30, -(2**30), 2**31 - 1, -(2**31)])
     if el == 3:
         # X.690 8.5.7.4 d): the next octet holds the number of exponent octets
-        n = rng.randint(max(1, (e.bit_length() + 8) // 8), 4)
+        lo = max(1, (e.bit_length() + 8) // 8)
+        n = rng.randint(lo, max(4, lo))
         eb = bytes([n]) + e.to_bytes(n, "big", signed=True)
     else:
         e = max(-(2 ** (8 * (el + 1) - 1)), min(2 ** (8 * (el + 1) - 1) - 1, e))
